@@ -7,6 +7,7 @@ open Base
 open C04Model
 open C04AsmModel
 open C04AllocModel
+open C04MfraModel
 
 let zarg s = z_of_hex s
 
@@ -62,7 +63,37 @@ let parse_traf (s : string) : trafshape =
 
 let ni s = n_of_int (int_of_string s)
 
-let parse_shape (tok : string) : topshape * coq_N =
+(* tfra tokens "id=o1,o2[~rendering annotations]" separated by '|' *)
+let parse_tfras (s : string) =
+  if s = "" then [] else
+    L.map (fun t ->
+        let t = (match split_on '~' t with x :: _ -> x | [] -> t) in
+        match split_on '=' t with
+        | [tid; offs] -> (ni tid, if offs = "" then [] else L.map ni (split_on ',' offs))
+        | _ -> failwith "bad tfra") (split_on '|' s)
+
+let parse_mfro (s : string) = if s = "n" then None else Some (ni s)
+
+let after_colon (rest : string) : string * string =
+  match S.index_opt rest ':' with
+  | Some i -> (S.sub rest 0 i, S.sub rest (i + 1) (S.length rest - i - 1))
+  | None -> (rest, "")
+
+let rec parse_shape (tok : string) : xshape * coq_N =
+  match split_on '@' tok with
+  | [code; size] when code.[0] = 'B' ->
+    let (mf, tf) = after_colon (S.sub code 1 (S.length code - 1)) in
+    (XMfra (parse_tfras tf, parse_mfro mf), ni size)
+  | [code; size] when code.[0] = 'R' ->
+    (XMfro (ni (S.sub code 1 (S.length code - 1))), ni size)
+  | [code; size] when code.[0] = 'W' ->
+    let (hd, tf) = after_colon (S.sub code 1 (S.length code - 1)) in
+    (match split_on '.' hd with
+     | [pre; mf] -> (XMdatMfra (ni pre, parse_tfras tf, parse_mfro mf), ni size)
+     | _ -> failwith "bad W")
+  | _ -> let (t, sz) = parse_top tok in (XTop t, sz)
+
+and parse_top (tok : string) : topshape * coq_N =
   match split_on '@' tok with
   | [code; size] ->
     let sz = ni size in
@@ -86,9 +117,7 @@ let parse_shape (tok : string) : topshape * coq_N =
         else TMoof (L.map parse_traf (split_on '/' (S.sub rest 1 (S.length rest - 1))))
       | 'D' -> TMdat (ni rest)
       | 'A' -> if rest = "" then TMfra []
-        else TMfra (L.map (fun t -> match split_on '=' t with
-            | [tid; offs] -> (ni tid, if offs = "" then [] else L.map ni (split_on ',' offs))
-            | _ -> failwith "bad tfra") (split_on '|' (S.sub rest 1 (S.length rest - 1))))
+        else TMfra (parse_tfras (S.sub rest 1 (S.length rest - 1)))
       | 'U' -> TOther
       | _ -> failwith ("bad shape " ^ tok) in
     (sh, sz)
@@ -107,10 +136,10 @@ let file_obs (f : fstate) : string =
     (L.length (f_sidxs f)) (b01 (f_mfra f)) (L.length (f_children f))
     (S.concat ";" (L.map seg_s (L.rev (f_segs f))))
 
-let model_pipeline (cfg : string) (shapes : (topshape * coq_N) list) : string =
+let model_pipeline (cfg : string) (shapes : (xshape * coq_N) list) : string =
   let o = { o_sr = (cfg.[0] = 'S'); o_lazy = (cfg.[1] = 'L');
             o_ism = ((Char.code cfg.[2] - 48) land 1 = 1); o_start_on_moof = ((Char.code cfg.[2] - 48) land 2 = 2) } in
-  match assemble true o shapes with
+  match assemble_x true o shapes with
   | Ok f ->
     let i = cls_of (info_file true f) in
     let e0 = cls_of (encode_file true false f) in
@@ -148,7 +177,7 @@ let () =
           | (r, _) -> cls_of r in
         if m1 = o1 && m2 = o2 then Printf.printf "OK %s\n" id
         else Printf.printf "MISMATCH %s box model_r=%s model_sr=%s\n" id m1 m2
-      | ["A"; id; cfg; shapes; obs] ->
+      | ["A"; id; cfg; shapes; obs] | ["T"; id; cfg; shapes; obs] ->
         let sh = if shapes = "-" then [] else L.map parse_shape (split_on ';' shapes) in
         let m = model_pipeline cfg sh in
         if m = obs then Printf.printf "OK %s\n" id else Printf.printf "MISMATCH %s assembly model=%s\n" id m
